@@ -29,8 +29,20 @@ class ExtractError(Exception):
     pass
 
 
+_NORM = {}
+
+
 def norm(name):
     """Strip `::<...>` generic-argument segments from a def path (balanced)."""
+    r = _NORM.get(name)
+    if r is None:
+        r = _NORM[name] = _norm(name)
+    return r
+
+
+def _norm(name):
+    if "::<" not in name:
+        return name
     out = []
     i = 0
     n = len(name)
